@@ -1,0 +1,892 @@
+//go:build verif
+
+package rsql
+
+// Contracts for the SQL lexer and the total (never panicking) parts of the parser (C11).
+// Comment-only file; read by /verif/govc, ignored by every ordinary build.
+
+/*@
+// ---------------------------------------------------------------- lexer (C11)
+// lexOK: the cursor is inside the input (or exactly at its end), readPos is one ahead, and ch mirrors the byte
+// under the cursor (0 at the end). Every slice l.input[a:l.pos] taken by the lexer is in range because of it.
+// quiet(s, i): from byte i on the input holds nothing the lexer turns into a token: only blanks and bytes it
+// reports and skips (unknown characters, a '!' not followed by '=') up to the end or a zero byte.
+recfunc quiet((s Str) (i Int)) Bool := (ite (or (< i 0) (>= i (gs.len s))) true (let ((c (gs.at s i)) (nx (ite (< (+ i 1) (gs.len s)) (gs.at s (+ i 1)) 0))) (ite (= c 0) true (ite (or (= c 32) (= c 9) (= c 10) (= c 13)) (@quiet s (+ i 1)) (ite (ite (= c 33) (not (= nx 61)) (not (or (and (<= 97 c) (<= c 122)) (and (<= 65 c) (<= c 90)) (= c 95) (and (<= 48 c) (<= c 57)) (= c 44) (= c 40) (= c 41) (= c 91) (= c 93) (= c 46) (= c 63) (= c 124) (= c 123) (= c 125) (= c 43) (= c 45) (= c 42) (= c 47) (= c 61) (= c 62) (= c 60) (= c 39) (= c 34) (= c 96)))) (@quiet s (+ i 1)) false)))))
+
+pred lexOK(l) := l != nil && 0 <= l.pos && l.pos <= len(l.input) && l.readPos == l.pos + 1
+  && (l.pos < len(l.input) ==> l.ch == l.input[l.pos]) && (l.pos == len(l.input) ==> l.ch == 0)
+pred isWs(c) := c == ' ' || c == '\t' || c == '\n' || c == '\r'
+pred letter(c) := ('a' <= c && c <= 'z') || ('A' <= c && c <= 'Z') || c == '_'
+pred digit(c) := '0' <= c && c <= '9'
+
+func isLetter
+  props C11
+  option pure
+  ensures result <==> letter(ch)
+
+func isDigit
+  props C11
+  option pure
+  ensures result <==> digit(ch)
+
+func (*Lexer).readChar
+  props C11
+  option safety
+  requires l != nil && 0 <= l.readPos && l.readPos <= len(l.input)
+  modifies l.ch, l.pos, l.readPos, l.line, l.column
+  ensures advances-one-byte: l.pos == old(l.readPos) && l.readPos == old(l.readPos) + 1
+  ensures mirrors-the-byte: (l.pos < len(l.input) ==> l.ch == l.input[l.pos]) && (l.pos >= len(l.input) ==> l.ch == 0)
+
+func (*Lexer).peekChar
+  props C11
+  option safety
+  requires l != nil && 0 <= l.readPos
+  ensures (l.readPos < len(l.input) ==> result == l.input[l.readPos]) && (l.readPos >= len(l.input) ==> result == 0)
+
+func NewLexer
+  props C11
+  option safety
+  ensures fresh(result) && lexOK(result) && result.pos == 0 && result.input == input && result.errorRecovery == nil
+
+func (*Lexer).skipWhitespace
+  props C11
+  option safety
+  requires lexOK(l)
+  modifies l.ch, l.pos, l.readPos, l.line, l.column
+  ensures lexOK(l) && l.pos >= old(l.pos)
+  ensures skips-exactly-the-blank-run: forall(i, old(l.pos), l.pos, isWs(l.input[i])) && !isWs(l.ch)
+  ensures blanks-do-not-hide-a-token: quiet(l.input, old(l.pos)) == quiet(l.input, l.pos)
+  loop 1 invariant lexOK(l) && l.pos >= old(l.pos) && forall(i, old(l.pos), l.pos, isWs(l.input[i]))
+  loop 1 invariant quiet(l.input, old(l.pos)) == quiet(l.input, l.pos)
+  loop 1 decreases len(l.input) - l.pos
+
+func (*Lexer).readIdentifier
+  props C11
+  option safety
+  requires lexOK(l)
+  modifies l.ch, l.pos, l.readPos, l.line, l.column
+  ensures lexOK(l) && l.pos >= old(l.pos)
+  ensures identifier-text-is-ascii: ascii(result)
+  ensures is-the-maximal-identifier-run: result == l.input[old(l.pos):l.pos] && forall(i, old(l.pos), l.pos, letter(l.input[i]) || digit(l.input[i]) || l.input[i] == '.') && !(letter(l.ch) || digit(l.ch) || l.ch == '.')
+  loop 1 invariant lexOK(l) && l.pos >= old(l.pos) && forall(i, old(l.pos), l.pos, letter(l.input[i]) || digit(l.input[i]) || l.input[i] == '.')
+  loop 1 decreases len(l.input) - l.pos
+
+func (*Lexer).readNumber
+  props C11
+  option safety
+  requires lexOK(l)
+  modifies l.ch, l.pos, l.readPos, l.line, l.column
+  ensures lexOK(l) && l.pos >= old(l.pos)
+  ensures is-the-maximal-digit-run: result == l.input[old(l.pos):l.pos] && forall(i, old(l.pos), l.pos, digit(l.input[i]) || l.input[i] == '.') && !(digit(l.ch) || l.ch == '.')
+  loop 1 invariant lexOK(l) && l.pos >= old(l.pos) && forall(i, old(l.pos), l.pos, digit(l.input[i]) || l.input[i] == '.')
+  loop 1 decreases len(l.input) - l.pos
+
+func (*Lexer).readPreviousIdentifier
+  props C11
+  option safety
+  requires lexOK(l)
+  loop 1 invariant -1 <= startPos && startPos < l.pos
+  loop 1 decreases startPos + 1
+
+func (*Lexer).readString
+  props C11
+  option safety
+  requires lexOK(l) && l.ch != 0
+  modifies l.ch, l.pos, l.readPos, l.line, l.column
+  ensures lexOK(l) && l.pos > old(l.pos)
+  loop 1 invariant lexOK(l) && l.pos > old(l.pos)
+  loop 1 decreases len(l.input) - l.pos
+
+func (*ErrorRecovery).AddError
+  props C11
+  option safety
+  requires er != nil
+  modifies er.errors
+  ensures no-nil-entry-appears: err != nil && old(errsOK(er)) ==> errsOK(er)
+  ensures recorded-last: len(er.errors) == len(old(er.errors)) + 1 && er.errors[len(er.errors) - 1] == err && forall(i, 0, len(old(er.errors)), er.errors[i] == old(er.errors)[i])
+
+func (*Lexer).readStringToken
+  props C11
+  option safety
+  requires lexOK(l) && (l.ch == '\'' || l.ch == '"')
+  modifies l.ch, l.pos, l.readPos, l.line, l.column, l.errorRecovery.errors
+  ensures recorded-errors-stay-non-nil: old(errsOK(l.errorRecovery)) ==> errsOK(l.errorRecovery)
+  ensures lexOK(l) && l.pos > old(l.pos) && l.input == old(l.input)
+  ensures one-string-token-whatever-it-contains: result.Type == TokenString && result.Value == l.input[old(l.pos):l.pos] && result.Pos == pos
+  ensures nothing-inside-is-a-quote: forall(i, old(l.pos) + 1, l.pos - 1, l.input[i] != old(l.ch))
+  loop 1 invariant lexOK(l) && l.pos > old(l.pos) && l.input == old(l.input) && quoteChar == old(l.ch) && startPos == old(l.pos) && forall(i, old(l.pos) + 1, l.pos, l.input[i] != old(l.ch))
+  loop 1 decreases len(l.input) - l.pos
+
+func (*Lexer).readQuotedIdentToken
+  props C11
+  option safety
+  requires lexOK(l) && l.ch == '`'
+  modifies l.ch, l.pos, l.readPos, l.line, l.column, l.errorRecovery.errors
+  ensures recorded-errors-stay-non-nil: old(errsOK(l.errorRecovery)) ==> errsOK(l.errorRecovery)
+  ensures lexOK(l) && l.pos > old(l.pos) && l.input == old(l.input)
+  ensures one-identifier-token-whatever-it-contains: result.Type == TokenQuotedIdent && result.Value == l.input[old(l.pos):l.pos] && result.Pos == pos
+  loop 1 invariant lexOK(l) && l.pos > old(l.pos) && l.input == old(l.input) && startPos == old(l.pos)
+  loop 1 decreases len(l.input) - l.pos
+
+func (*Lexer).isValidNumber
+  props C11
+  option safety
+  loop 1 invariant startIndex <= i && 0 <= startIndex && startIndex < len(number)
+  loop 1 decreases len(number) - i
+
+pred snapOK(s, l) := 0 <= s.pos && s.pos <= len(l.input) && s.readPos == s.pos + 1 && (s.pos < len(l.input) ==> s.ch == l.input[s.pos]) && (s.pos == len(l.input) ==> s.ch == 0)
+
+func (*Lexer).save
+  props C11
+  option safety
+  requires l != nil
+  ensures result.pos == l.pos && result.readPos == l.readPos && result.ch == l.ch && result.line == l.line && result.column == l.column
+  ensures snapshot-of-a-consistent-lexer-is-consistent: lexOK(l) ==> snapOK(result, l)
+
+func (*Lexer).restore
+  props C11
+  option safety
+  requires l != nil
+  modifies l.ch, l.pos, l.readPos, l.line, l.column
+  ensures l.pos == s.pos && l.readPos == s.readPos && l.ch == s.ch && l.line == s.line && l.column == s.column
+  ensures restoring-a-consistent-snapshot-keeps-the-lexer-consistent: snapOK(s, l) ==> lexOK(l)
+@*/
+
+/*@
+// The documented keyword table: a word is a keyword exactly when its upper-cased spelling is in the table,
+// whatever the case it was written in; every other word is an identifier.
+pred kwType(u) := ite(u == "SELECT", TokenSELECT, ite(u == "FROM", TokenFROM, ite(u == "WHERE", TokenWHERE, ite(u == "GROUP", TokenGROUP, ite(u == "BY", TokenBY, ite(u == "AS", TokenAS, ite(u == "OR", TokenOR, ite(u == "AND", TokenAND, ite(u == "TUMBLINGWINDOW", TokenTumbling, ite(u == "SLIDINGWINDOW", TokenSliding, ite(u == "COUNTINGWINDOW", TokenCounting, ite(u == "SESSIONWINDOW", TokenSession, ite(u == "GLOBAL", TokenGlobal, ite(u == "WINDOW", TokenWindow, ite(u == "TRIGGER", TokenTrigger, ite(u == "WITH", TokenWITH, ite(u == "TIMESTAMP", TokenTimestamp, ite(u == "TIMEUNIT", TokenTimeUnit, ite(u == "MAXOUTOFORDERNESS", TokenMaxOutOfOrderness, ite(u == "ALLOWEDLATENESS", TokenAllowedLateness, ite(u == "IDLETIMEOUT", TokenIdleTimeout, ite(u == "STATETTL", TokenStateTTL, ite(u == "ORDER", TokenOrder, ite(u == "DISTINCT", TokenDISTINCT, ite(u == "LIMIT", TokenLIMIT, ite(u == "HAVING", TokenHAVING, ite(u == "LIKE", TokenLIKE, ite(u == "IS", TokenIS, ite(u == "NULL", TokenNULL, ite(u == "NOT", TokenNOT, ite(u == "CASE", TokenCASE, ite(u == "WHEN", TokenWHEN, ite(u == "THEN", TokenTHEN, ite(u == "ELSE", TokenELSE, ite(u == "END", TokenEND, ite(u == "OVER", TokenOVER, ite(u == "PARTITION", TokenPARTITION, TokenIdent)))))))))))))))))))))))))))))))))))))
+
+func (*Lexer).checkForTypos
+  props C11
+  option safety
+  requires l != nil && l.errorRecovery != nil
+  modifies l.errorRecovery.errors
+  ensures recorded-errors-stay-non-nil: old(errsOK(l.errorRecovery)) ==> errsOK(l.errorRecovery)
+
+func (*Lexer).lookupIdent
+  props C11
+  option safety
+  requires l != nil
+  modifies l.errorRecovery.errors
+  ensures recorded-errors-stay-non-nil: old(errsOK(l.errorRecovery)) ==> errsOK(l.errorRecovery)
+  ensures keyword-decided-by-the-upper-cased-spelling-only: result.Type == kwType(strings.ToUpper(ident))
+  ensures token-text-is-the-word-as-written: result.Value == ident
+
+func (*Lexer).NextToken
+  props C11
+  option safety
+  requires lexOK(l)
+  decreases len(l.input) - l.pos
+  modifies l.ch, l.pos, l.readPos, l.line, l.column, l.errorRecovery.errors
+  ensures recorded-errors-stay-non-nil: old(errsOK(l.errorRecovery)) ==> errsOK(l.errorRecovery)
+  ensures lexOK(l) && l.pos >= old(l.pos) && l.input == old(l.input)
+  ensures progress-unless-at-the-end: result.Type != TokenEOF ==> l.pos > old(l.pos)
+  ensures end-only-at-a-zero-byte: result.Type == TokenEOF ==> l.ch == 0
+  ensures the-end-token-has-no-text: result.Type == TokenEOF ==> result.Value == ""
+  ensures end-of-input-exactly-when-nothing-tokenizable-remains: (result.Type == TokenEOF) <==> quiet(l.input, old(l.pos))
+  ensures token-lies-inside-the-input: old(l.pos) <= result.Pos && result.Pos <= l.pos
+  ensures quoted-text-is-one-token: result.Type == TokenString ==> result.Value == l.input[result.Pos:l.pos]
+  ensures a-word-is-classified-by-its-upper-cased-spelling: result.Pos < len(l.input) && letter(l.input[result.Pos]) ==> result.Type == kwType(strings.ToUpper(result.Value)) && result.Value == l.input[result.Pos:l.pos] && ascii(result.Value)
+  ensures keywords-come-only-from-words: result.Type == TokenOrder || result.Type == TokenLIMIT || result.Type == TokenBY ==> result.Pos < len(l.input) && letter(l.input[result.Pos])
+@*/
+
+/*@
+// ---------------------------------------------------------------- error construction and formatting (C11: never panics)
+func calculateLineColumn
+  props C11
+  option safety
+  option pure
+
+func generateSuggestions
+  props C11
+  option safety
+  ensures true
+
+func generateFunctionSuggestions
+  props C11
+  option safety
+  ensures true
+
+func CreateSyntaxError
+  props C11
+  option safety
+  ensures fresh(result) && result.Position == position
+
+func CreateLexicalError
+  props C11
+  option safety
+  ensures fresh(result) && result.Position == position
+
+func CreateLexicalErrorWithPosition
+  props C11
+  option safety
+  ensures fresh(result) && result.Position == position
+
+func CreateUnexpectedTokenError
+  props C11
+  option safety
+  ensures fresh(result) && result.Position == position
+
+func CreateMissingTokenError
+  props C11
+  option safety
+  ensures fresh(result) && result.Position == position
+
+func CreateUnknownFunctionError
+  props C11
+  option safety
+  ensures fresh(result) && result.Position == position
+
+func CreateSemanticError
+  props C11
+  option safety
+  ensures fresh(result) && result.Position == position
+
+func FormatErrorContext
+  props C11
+  option safety
+  requires contextLength >= 0
+  ensures out-of-range-position-gives-no-context: position < 0 || position >= len(input) ==> result == ""
+
+func (*ParseError).Error
+  props C11
+  option safety
+  requires e != nil
+
+func (*ParseError).getErrorTypeName
+  props C11
+  option safety
+  requires e != nil
+
+func (*ErrorRecovery).GetErrors
+  props C11
+  option safety
+  requires er != nil
+  ensures result == er.errors
+
+func (*ErrorRecovery).HasErrors
+  props C11
+  option safety
+  requires er != nil
+  ensures result <==> len(er.errors) > 0
+@*/
+
+/*@
+// ---------------------------------------------------------------- parser state (C11)
+pred errsOK(er) := forall(i, 0, len(er.errors), er.errors[i] != nil)
+pred parOK(p) := p != nil && allocated(p) && allocated(p.lexer) && allocated(p.errorRecovery) && p.lexer != nil && lexOK(p.lexer) && p.errorRecovery != nil && p.lexer.errorRecovery == p.errorRecovery && p.errorRecovery.parser == p && p.input == p.lexer.input && errsOK(p.errorRecovery)
+@*/
+
+/*@
+pred errOK(e) := hasType(e, *ParseError) ==> unbox(e, *ParseError) != nil
+
+func NewErrorRecovery
+  props C11
+  option safety
+  ensures fresh(result) && result.parser == parser && len(result.errors) == 0
+
+func (*Lexer).SetErrorRecovery
+  props C11
+  option safety
+  requires l != nil
+  modifies l.errorRecovery
+  ensures l.errorRecovery == er
+
+func NewParser
+  props C11
+  option safety
+  modifies *
+  ensures parOK(result) && result.input == input && result.lexer.pos == 0
+
+func (*ErrorRecovery).skipToNextDelimiter
+  props C11
+  option safety
+  requires er != nil && parOK(er.parser)
+  modifies heap(Lexer.ch), heap(Lexer.pos), heap(Lexer.readPos), heap(Lexer.line), heap(Lexer.column), heap(ErrorRecovery.errors)
+  ensures parOK(er.parser) && er.parser.lexer.pos >= old(er.parser.lexer.pos)
+  loop 1 invariant parOK(er.parser) && er.parser.lexer.pos >= old(er.parser.lexer.pos) && skipped >= 0
+  loop 1 decreases maxSkip - skipped
+
+func (*ErrorRecovery).RecoverFromError
+  props C11
+  option safety
+  requires er != nil && parOK(er.parser)
+  modifies heap(Lexer.ch), heap(Lexer.pos), heap(Lexer.readPos), heap(Lexer.line), heap(Lexer.column), heap(ErrorRecovery.errors)
+  ensures parOK(er.parser) && er.parser.lexer.pos >= old(er.parser.lexer.pos)
+
+func (*ParseError).IsRecoverable
+  props C11
+  option safety
+  requires e != nil
+  ensures result == e.Recoverable
+
+func (*Parser).GetErrors
+  props C11
+  option safety
+  requires parOK(p)
+  ensures result == p.errorRecovery.errors
+
+func (*Parser).HasErrors
+  props C11
+  option safety
+  requires parOK(p)
+
+func (*Parser).getTokenTypeName
+  props C11
+  option safety
+  requires p != nil
+
+func (*Parser).createTokenError
+  props C11
+  option safety
+  requires p != nil
+  modifies heap(ParseError.Context), heap(ParseError.Message)
+  ensures fresh(result)
+
+func (*Parser).shouldAttemptRecovery
+  props C11
+  option safety
+  requires parOK(p) && err != nil
+  modifies heap(Lexer.ch), heap(Lexer.pos), heap(Lexer.readPos), heap(Lexer.line), heap(Lexer.column), heap(ErrorRecovery.errors)
+  ensures parOK(p) && p.lexer.pos >= old(p.lexer.pos)
+
+func (*Parser).expectTokenWithDepth
+  props C11
+  option safety
+  requires parOK(p) && depth >= 0
+  decreases 32 - depth
+  modifies *
+  ensures parOK(p) && p.lexer.pos >= old(p.lexer.pos) && errOK(result1)
+  ensures success-means-the-expected-kind: result1 == nil ==> result0.Type == expected
+
+func (*Parser).expectToken
+  props C11
+  option safety
+  requires parOK(p)
+  modifies *
+  ensures parOK(p) && p.lexer.pos >= old(p.lexer.pos) && errOK(result1)
+  ensures success-means-the-expected-kind: result1 == nil ==> result0.Type == expected
+
+func (*Parser).createDetailedError
+  props C11
+  option safety
+  requires p != nil && errOK(err)
+  modifies heap(ParseError.Context)
+  ensures errOK(result) && (err != nil ==> result != nil)
+
+func (*Parser).createCombinedError
+  props C11
+  option safety
+  requires parOK(p)
+  modifies heap(ParseError.Context)
+  ensures parOK(p)
+  ensures errOK(result)
+
+func (*Parser).peekToken
+  props C11
+  option safety
+  requires parOK(p)
+  modifies p.errorRecovery.errors
+  ensures parOK(p) && p.lexer.pos == old(p.lexer.pos) && p.lexer.ch == old(p.lexer.ch)
+  ensures the-end-token-has-no-text: result.Type == TokenEOF ==> result.Value == ""
+  ensures peek-tells-whether-a-token-remains: (result.Type == TokenEOF) <==> quiet(p.lexer.input, p.lexer.pos)
+@*/
+
+/*@
+// ---------------------------------------------------------------- clause parsers (C11)
+func (*Parser).parseOrderBy
+  props C11
+  option safety
+  requires parOK(p) && stmt != nil
+  modifies stmt.OrderBy, p.errorRecovery.errors
+  ensures parOK(p) && errOK(result)
+  before TrimSpace direction-is-decided-by-the-upper-cased-word-only: tok__3.Type == TokenIdent ==> (dir == types.SortDesc <==> strings.ToUpper(tok__3.Value) == "DESC")
+  before TrimSpace without-a-direction-word-the-key-ascends: tok__3.Type != TokenIdent ==> dir == types.SortAsc
+  loop 1 invariant parOK(p) && orderLexer != nil && fresh(orderLexer) && lexOK(orderLexer) && orderLexer.input == p.input && orderLexer.errorRecovery != nil && fresh(orderLexer.errorRecovery) && orderPos == -1
+  loop 1 decreases len(orderLexer.input) - orderLexer.pos
+  loop 2 invariant parOK(p) && fieldLexer != nil && fresh(fieldLexer) && lexOK(fieldLexer) && fieldLexer.errorRecovery != nil && fresh(fieldLexer.errorRecovery)
+  loop 2 decreases len(fieldLexer.input) - fieldLexer.pos
+  loop 3 invariant parOK(p) && fieldLexer != nil && fresh(fieldLexer) && lexOK(fieldLexer) && fieldLexer.errorRecovery != nil && fresh(fieldLexer.errorRecovery) && dir == types.SortAsc && !done && !advance && fieldLexer.pos >= atloop(2, fieldLexer.pos)
+  loop 3 decreases len(fieldLexer.input) - fieldLexer.pos
+@*/
+
+/*@
+func (*Parser).handleLimitToken
+  props C11
+  option safety
+  requires parOK(p) && stmt != nil
+  modifies stmt.Limit, heap(Lexer.ch), heap(Lexer.pos), heap(Lexer.readPos), heap(Lexer.line), heap(Lexer.column), p.errorRecovery.errors
+  ensures parOK(p) && errOK(result) && p.lexer.pos >= old(p.lexer.pos)
+  ensures limit-is-never-negative: stmt.Limit == old(stmt.Limit) || stmt.Limit >= 0
+
+func (*Parser).parseLimit
+  props C11
+  option safety
+  requires parOK(p) && stmt != nil
+  modifies stmt.Limit, p.errorRecovery.errors
+  ensures parOK(p) && errOK(result)
+  ensures limit-is-never-negative: stmt.Limit == old(stmt.Limit) || stmt.Limit >= 0
+  loop 1 invariant parOK(p) && limitLexer != nil && fresh(limitLexer) && lexOK(limitLexer) && limitLexer.input == p.input && limitLexer.errorRecovery != nil && fresh(limitLexer.errorRecovery) && limitIndex == -1
+  loop 1 decreases len(limitLexer.input) - limitLexer.pos
+@*/
+
+/*@
+// registry lookups: read-only for the parser (GetExprBridge creates the bridge lazily on first use; that write is
+// inventoried under C20 and does not touch parser state)
+pure github.com/rulego/streamsql/functions.Get
+pure github.com/rulego/streamsql/utils/cast.ToDurationE
+pure time.ParseDuration
+pure github.com/rulego/streamsql/functions.GetExprBridge
+pure (*github.com/rulego/streamsql/functions.ExprBridge).IsExprLangFunction
+
+func NewFunctionValidator
+  props C11
+  option safety
+  ensures fresh(result) && result.errorRecovery == errorRecovery
+
+// relies on the regexp library contract (index pairs of FindAllStringSubmatchIndex lie inside the text): assumed
+extern (*FunctionValidator).extractFunctionCalls
+  props C11
+  option pure
+
+extern (*FunctionValidator).isBuiltinFunction
+  props C11
+  option pure
+
+func (*FunctionValidator).isKeyword
+  props C11
+  option safety
+
+func (*FunctionValidator).ValidateExpression
+  props C11
+  option safety
+  requires fv != nil && fv.errorRecovery != nil
+  modifies fv.errorRecovery.errors
+  ensures recorded-errors-stay-non-nil: old(errsOK(fv.errorRecovery)) ==> errsOK(fv.errorRecovery)
+  loop 1 invariant old(errsOK(fv.errorRecovery)) ==> errsOK(fv.errorRecovery)
+
+func (*Lexer).GetPosition
+  props C11
+  option safety
+  requires l != nil
+  ensures result0 == l.pos && result1 == l.line && result2 == l.column
+
+// string scanner over the rebuilt WHERE text; verified separately below where its index arithmetic is in reach
+extern extractWhereAnalyticCalls
+  props C11
+  option pure
+
+func (*Parser).parseWhere
+  props C11
+  option safety
+  requires parOK(p) && stmt != nil
+  modifies stmt.Condition, heap(Lexer.ch), heap(Lexer.pos), heap(Lexer.readPos), heap(Lexer.line), heap(Lexer.column), p.errorRecovery.errors
+  ensures parOK(p) && errOK(result) && p.lexer.pos >= old(p.lexer.pos)
+  loop 1 invariant parOK(p) && p.lexer.pos >= old(p.lexer.pos) && 0 <= iterations && iterations <= maxIterations && maxIterations == 100
+  loop 1 decreases 101 - iterations
+
+func (*Parser).parseHaving
+  props C11
+  option safety
+  requires parOK(p) && stmt != nil
+  modifies stmt.Having, heap(Lexer.ch), heap(Lexer.pos), heap(Lexer.readPos), heap(Lexer.line), heap(Lexer.column), p.errorRecovery.errors
+  ensures parOK(p) && errOK(result) && p.lexer.pos >= old(p.lexer.pos)
+  loop 1 invariant parOK(p) && p.lexer.pos >= old(p.lexer.pos) && 0 <= iterations && iterations <= maxIterations && maxIterations == 100
+  loop 1 decreases 101 - iterations
+@*/
+
+/*@
+pred lexMods() := true
+
+func convertValue
+  props C11
+  option safety
+
+func isClauseBoundaryIdent
+  props C11
+  option safety
+  option pure
+
+func (*Parser).parseWindowFunction
+  props C11
+  option safety
+  requires parOK(p) && stmt != nil
+  modifies stmt.Window, heap(Lexer.ch), heap(Lexer.pos), heap(Lexer.readPos), heap(Lexer.line), heap(Lexer.column), p.errorRecovery.errors
+  ensures parOK(p) && errOK(result) && p.lexer.pos >= old(p.lexer.pos)
+  loop 1 invariant parOK(p) && p.lexer.pos >= old(p.lexer.pos) && 0 <= iterations && iterations <= maxIterations && maxIterations == 100
+  loop 1 decreases 101 - iterations
+
+func (*Parser).parseGlobalWindow
+  props C11
+  option safety
+  requires parOK(p) && stmt != nil
+  modifies stmt.Window, heap(Lexer.ch), heap(Lexer.pos), heap(Lexer.readPos), heap(Lexer.line), heap(Lexer.column), p.errorRecovery.errors
+  ensures parOK(p) && errOK(result) && p.lexer.pos >= old(p.lexer.pos)
+  loop 1 invariant parOK(p) && p.lexer.pos >= old(p.lexer.pos) && 0 <= iter && iter <= maxIter && maxIter == 100
+  loop 1 decreases 101 - iter
+
+func (*Parser).parseOverPartitionBy
+  props C11
+  option safety
+  requires parOK(p) && spec != nil
+  modifies spec.PartitionBy, heap(Lexer.ch), heap(Lexer.pos), heap(Lexer.readPos), heap(Lexer.line), heap(Lexer.column), p.errorRecovery.errors
+  ensures parOK(p) && errOK(result) && p.lexer.pos >= old(p.lexer.pos)
+  loop 1 invariant parOK(p) && p.lexer.pos >= old(p.lexer.pos)
+  loop 1 decreases len(p.lexer.input) - p.lexer.pos
+
+func (*Parser).parseOverWhen
+  props C11
+  option safety
+  requires parOK(p)
+  modifies heap(Lexer.ch), heap(Lexer.pos), heap(Lexer.readPos), heap(Lexer.line), heap(Lexer.column), p.errorRecovery.errors
+  ensures parOK(p) && errOK(result1) && p.lexer.pos >= old(p.lexer.pos)
+  loop 1 invariant parOK(p) && p.lexer.pos >= old(p.lexer.pos) && 0 <= i
+  loop 1 decreases 100 - i
+
+func (*Parser).parseOverClause
+  props C11
+  option safety
+  requires parOK(p)
+  modifies heap(types.OverSpec.PartitionBy), heap(types.OverSpec.When), heap(Lexer.ch), heap(Lexer.pos), heap(Lexer.readPos), heap(Lexer.line), heap(Lexer.column), p.errorRecovery.errors
+  ensures parOK(p) && errOK(result1) && p.lexer.pos >= old(p.lexer.pos)
+  ensures a-spec-or-an-error: result1 == nil ==> result0 != nil
+  loop 1 invariant parOK(p) && p.lexer.pos >= old(p.lexer.pos) && spec != nil && fresh(spec)
+  loop 1 decreases len(p.lexer.input) - p.lexer.pos
+
+func (*Parser).parseFrom
+  props C11
+  option safety
+  requires parOK(p) && stmt != nil
+  modifies stmt.Source, stmt.SourceAlias, heap(ParseError.Message), heap(ParseError.Context), heap(ParseError.Suggestions), heap(Lexer.ch), heap(Lexer.pos), heap(Lexer.readPos), heap(Lexer.line), heap(Lexer.column), p.errorRecovery.errors
+  ensures parOK(p) && errOK(result) && p.lexer.pos >= old(p.lexer.pos)
+@*/
+
+/*@
+func stripAliasPrefix
+  props C11
+  option safety
+
+func (*Parser).readJoinedFieldName
+  props C11
+  option safety
+  requires parOK(p)
+  modifies heap(Lexer.ch), heap(Lexer.pos), heap(Lexer.readPos), heap(Lexer.line), heap(Lexer.column), p.errorRecovery.errors
+  ensures parOK(p) && errOK(result1) && p.lexer.pos >= old(p.lexer.pos)
+  ensures a-field-name-consumes-input: result1 == nil ==> p.lexer.pos > old(p.lexer.pos)
+  loop 1 invariant parOK(p) && p.lexer.pos > old(p.lexer.pos)
+  loop 1 decreases len(p.lexer.input) - p.lexer.pos
+
+func (*Parser).parseJoin
+  props C11
+  option safety
+  requires parOK(p) && stmt != nil
+  modifies stmt.JoinConfigs, heap(Lexer.ch), heap(Lexer.pos), heap(Lexer.readPos), heap(Lexer.line), heap(Lexer.column), p.errorRecovery.errors
+  ensures parOK(p) && errOK(result) && p.lexer.pos >= old(p.lexer.pos)
+  loop 1 invariant parOK(p) && p.lexer.pos >= old(p.lexer.pos)
+  loop 1 decreases len(p.lexer.input) - p.lexer.pos
+  loop 2 invariant parOK(p) && p.lexer.pos > atloop(1, p.lexer.pos)
+  loop 2 decreases len(p.lexer.input) - p.lexer.pos
+
+func collapseSpacesOutsideQuotes
+  props C11
+  option safety
+  loop 1 decreases len(s) - i
+
+func (*Parser).parseGroupBy
+  props C11
+  option safety
+  requires parOK(p) && stmt != nil
+  modifies heap(SelectStatement.GroupBy), heap(strings.Builder), stmt.Window, stmt.Limit, heap(types.OverSpec.PartitionBy), heap(types.OverSpec.When), heap(Lexer.ch), heap(Lexer.pos), heap(Lexer.readPos), heap(Lexer.line), heap(Lexer.column), p.errorRecovery.errors
+  ensures parOK(p) && errOK(result) && p.lexer.pos >= old(p.lexer.pos)
+  loop 1 invariant parOK(p) && p.lexer.pos >= old(p.lexer.pos) && stmt != nil && 0 <= iterations && iterations <= maxIterations && maxIterations == 100
+  loop 1 decreases 101 - iterations
+@*/
+
+/*@
+func isKeyword
+  props C11
+  option safety
+  option pure
+
+func (*Parser).parseSelect
+  props C11
+  option safety
+  requires parOK(p) && stmt != nil
+  modifies stmt.Distinct, stmt.SelectAll, stmt.Fields, heap(strings.Builder), heap(types.OverSpec.PartitionBy), heap(types.OverSpec.When), heap(Lexer.ch), heap(Lexer.pos), heap(Lexer.readPos), heap(Lexer.line), heap(Lexer.column), p.errorRecovery.errors
+  ensures parOK(p) && errOK(result) && p.lexer.pos >= old(p.lexer.pos)
+  loop 1 invariant parOK(p) && p.lexer.pos >= old(p.lexer.pos) && 0 <= fieldCount && fieldCount <= 300
+  loop 1 decreases 301 - fieldCount
+  loop 2 invariant parOK(p) && p.lexer.pos >= old(p.lexer.pos) && 0 <= exprPartCount && exprPartCount <= maxExprParts && maxExprParts == 100 && fieldCount <= 300
+  loop 2 decreases 101 - exprPartCount
+@*/
+
+/*@
+func (*Parser).parseWith
+  props C11
+  option safety
+  requires parOK(p) && stmt != nil
+  modifies stmt.Window, heap(Lexer.ch), heap(Lexer.pos), heap(Lexer.readPos), heap(Lexer.line), heap(Lexer.column), p.errorRecovery.errors
+  ensures parOK(p) && errOK(result) && p.lexer.pos >= old(p.lexer.pos)
+  loop 1 invariant parOK(p) && p.lexer.pos >= old(p.lexer.pos) && 0 <= iterations && iterations <= maxIterations && maxIterations == 100
+  loop 1 decreases 100 - iterations
+@*/
+
+/*@
+// ---------------------------------------------------------------- MATCH_RECOGNIZE parser (C11)
+func isMRClauseKeyword
+  props C11
+  option safety
+  option pure
+
+func stripBackticks
+  props C11
+  option safety
+  option pure
+
+func isMRIdentLike
+  props C11
+  option safety
+  option pure
+  ensures an-identifier-like-token-has-text: result ==> len(t.Value) > 0
+
+func isMRSymbolToken
+  props C11
+  option safety
+  option pure
+  ensures result <==> (t.Type == TokenQuotedIdent || isMRIdentLike(t))
+
+func isMRAtomStart
+  props C11
+  option safety
+  option pure
+  ensures result <==> (t.Type == TokenLParen || t.Type == TokenLBrace || isMRIdentLike(t))
+
+func durationUnit
+  props C11
+  option safety
+
+func (*Parser).expectKeyword
+  props C11
+  option safety
+  requires parOK(p)
+  modifies heap(Lexer.ch), heap(Lexer.pos), heap(Lexer.readPos), heap(Lexer.line), heap(Lexer.column), p.errorRecovery.errors
+  ensures parOK(p) && errOK(result) && p.lexer.pos >= old(p.lexer.pos)
+
+func (*Parser).readSymbol
+  props C11
+  option safety
+  requires parOK(p)
+  modifies heap(Lexer.ch), heap(Lexer.pos), heap(Lexer.readPos), heap(Lexer.line), heap(Lexer.column), p.errorRecovery.errors
+  ensures parOK(p) && errOK(result1) && p.lexer.pos >= old(p.lexer.pos)
+
+func (*Parser).readIdentList
+  props C11
+  option safety
+  requires parOK(p)
+  modifies heap(Lexer.ch), heap(Lexer.pos), heap(Lexer.readPos), heap(Lexer.line), heap(Lexer.column), p.errorRecovery.errors
+  ensures parOK(p) && errOK(result1) && p.lexer.pos >= old(p.lexer.pos)
+  loop 1 invariant parOK(p) && p.lexer.pos >= old(p.lexer.pos)
+  loop 1 decreases len(p.lexer.input) - p.lexer.pos
+
+func (*Parser).readMROrderBy
+  props C11
+  option safety
+  requires parOK(p)
+  modifies heap(Lexer.ch), heap(Lexer.pos), heap(Lexer.readPos), heap(Lexer.line), heap(Lexer.column), p.errorRecovery.errors
+  ensures parOK(p) && errOK(result1) && p.lexer.pos >= old(p.lexer.pos)
+  loop 1 invariant parOK(p) && p.lexer.pos >= old(p.lexer.pos)
+  loop 1 decreases len(p.lexer.input) - p.lexer.pos
+
+func (*Parser).expectRowPerMatch
+  props C11
+  option safety
+  requires parOK(p)
+  modifies heap(Lexer.ch), heap(Lexer.pos), heap(Lexer.readPos), heap(Lexer.line), heap(Lexer.column), p.errorRecovery.errors
+  ensures parOK(p) && errOK(result) && p.lexer.pos >= old(p.lexer.pos)
+  loop 1 invariant parOK(p) && p.lexer.pos >= old(p.lexer.pos)
+
+func (*Parser).readMRUntilAS
+  props C11
+  option safety
+  requires parOK(p)
+  modifies heap(Lexer.ch), heap(Lexer.pos), heap(Lexer.readPos), heap(Lexer.line), heap(Lexer.column), p.errorRecovery.errors
+  ensures parOK(p) && errOK(result1) && p.lexer.pos >= old(p.lexer.pos)
+  loop 1 invariant parOK(p) && p.lexer.pos >= old(p.lexer.pos) && 0 <= i
+  loop 1 decreases 1000 - i
+
+func (*Parser).readMRExpr
+  props C11
+  option safety
+  requires parOK(p)
+  modifies heap(Lexer.ch), heap(Lexer.pos), heap(Lexer.readPos), heap(Lexer.line), heap(Lexer.column), p.errorRecovery.errors
+  ensures parOK(p) && errOK(result1) && p.lexer.pos >= old(p.lexer.pos)
+  loop 1 invariant parOK(p) && p.lexer.pos >= old(p.lexer.pos) && 0 <= i
+  loop 1 decreases 1000 - i
+
+func (*Parser).readMRMeasures
+  props C11
+  option safety
+  requires parOK(p)
+  modifies heap(Lexer.ch), heap(Lexer.pos), heap(Lexer.readPos), heap(Lexer.line), heap(Lexer.column), p.errorRecovery.errors
+  ensures parOK(p) && errOK(result1) && p.lexer.pos >= old(p.lexer.pos)
+  loop 1 invariant parOK(p) && p.lexer.pos >= old(p.lexer.pos)
+  loop 1 decreases len(p.lexer.input) - p.lexer.pos
+
+func (*Parser).readMRDefines
+  props C11
+  option safety
+  requires parOK(p)
+  modifies heap(Lexer.ch), heap(Lexer.pos), heap(Lexer.readPos), heap(Lexer.line), heap(Lexer.column), p.errorRecovery.errors
+  ensures parOK(p) && errOK(result1) && p.lexer.pos >= old(p.lexer.pos)
+  loop 1 invariant parOK(p) && p.lexer.pos >= old(p.lexer.pos)
+  loop 1 decreases len(p.lexer.input) - p.lexer.pos
+
+func (*Parser).readMRSubsets
+  props C11
+  option safety
+  requires parOK(p)
+  modifies heap(Lexer.ch), heap(Lexer.pos), heap(Lexer.readPos), heap(Lexer.line), heap(Lexer.column), p.errorRecovery.errors
+  ensures parOK(p) && errOK(result1) && p.lexer.pos >= old(p.lexer.pos)
+  loop 1 invariant parOK(p) && p.lexer.pos >= old(p.lexer.pos)
+  loop 1 decreases len(p.lexer.input) - p.lexer.pos
+
+func (*Parser).readMRAfterMatchSkip
+  props C11
+  option safety
+  requires parOK(p) && spec != nil
+  modifies spec.Skip, spec.SkipSymbol, heap(Lexer.ch), heap(Lexer.pos), heap(Lexer.readPos), heap(Lexer.line), heap(Lexer.column), p.errorRecovery.errors
+  ensures parOK(p) && errOK(result) && p.lexer.pos >= old(p.lexer.pos)
+
+func (*Parser).parseMRDuration
+  props C11
+  option safety
+  requires parOK(p)
+  modifies heap(Lexer.ch), heap(Lexer.pos), heap(Lexer.readPos), heap(Lexer.line), heap(Lexer.column), p.errorRecovery.errors
+  ensures parOK(p) && errOK(result1) && p.lexer.pos >= old(p.lexer.pos)
+
+func (*Parser).consumeReluctant
+  props C11
+  option safety
+  requires parOK(p)
+  modifies heap(Lexer.ch), heap(Lexer.pos), heap(Lexer.readPos), heap(Lexer.line), heap(Lexer.column), p.errorRecovery.errors
+  ensures parOK(p) && p.lexer.pos >= old(p.lexer.pos)
+
+func (*Parser).parseMRBounded
+  props C11
+  option safety
+  requires parOK(p)
+  modifies heap(Lexer.ch), heap(Lexer.pos), heap(Lexer.readPos), heap(Lexer.line), heap(Lexer.column), p.errorRecovery.errors
+  ensures parOK(p) && errOK(result1) && p.lexer.pos >= old(p.lexer.pos)
+
+func (*Parser).tryMRQuantifier
+  props C11
+  option safety
+  requires parOK(p)
+  modifies heap(Lexer.ch), heap(Lexer.pos), heap(Lexer.readPos), heap(Lexer.line), heap(Lexer.column), p.errorRecovery.errors
+  ensures parOK(p) && errOK(result2) && p.lexer.pos >= old(p.lexer.pos)
+
+// the pattern grammar is mutually recursive; termination measure: 8 * (bytes left) + rank of the nonterminal
+func (*Parser).parseMRAlternation
+  props C11
+  ensures success-consumes-input: result1 == nil ==> p.lexer.pos > old(p.lexer.pos)
+  option safety
+  recgroup mrpattern
+  decreases 8 * (len(p.lexer.input) - p.lexer.pos) + 3
+  requires parOK(p)
+  modifies heap(Lexer.ch), heap(Lexer.pos), heap(Lexer.readPos), heap(Lexer.line), heap(Lexer.column), p.errorRecovery.errors
+  ensures parOK(p) && errOK(result1) && p.lexer.pos >= old(p.lexer.pos)
+  ensures a-node-or-an-error: result1 == nil ==> result0 != nil
+  loop 1 invariant parOK(p) && p.lexer.pos > old(p.lexer.pos) && forall(i, 0, len(children), children[i] != nil)
+  loop 1 decreases len(p.lexer.input) - p.lexer.pos
+
+func (*Parser).parseMRSequence
+  props C11
+  ensures success-consumes-input: result1 == nil ==> p.lexer.pos > old(p.lexer.pos)
+  option safety
+  recgroup mrpattern
+  decreases 8 * (len(p.lexer.input) - p.lexer.pos) + 2
+  requires parOK(p)
+  modifies heap(Lexer.ch), heap(Lexer.pos), heap(Lexer.readPos), heap(Lexer.line), heap(Lexer.column), p.errorRecovery.errors
+  ensures parOK(p) && errOK(result1) && p.lexer.pos >= old(p.lexer.pos)
+  ensures a-node-or-an-error: result1 == nil ==> result0 != nil
+  loop 1 invariant parOK(p) && p.lexer.pos >= old(p.lexer.pos) && forall(i, 0, len(atoms), atoms[i] != nil) && (len(atoms) > 0 ==> p.lexer.pos > old(p.lexer.pos))
+  loop 1 decreases len(p.lexer.input) - p.lexer.pos
+
+func (*Parser).parseMRQuantified
+  props C11
+  option safety
+  recgroup mrpattern
+  decreases 8 * (len(p.lexer.input) - p.lexer.pos) + 1
+  requires parOK(p)
+  modifies heap(Lexer.ch), heap(Lexer.pos), heap(Lexer.readPos), heap(Lexer.line), heap(Lexer.column), p.errorRecovery.errors
+  ensures parOK(p) && errOK(result1) && p.lexer.pos >= old(p.lexer.pos)
+  ensures a-node-or-an-error: result1 == nil ==> result0 != nil
+  ensures a-quantified-atom-consumes-input: result1 == nil ==> p.lexer.pos > old(p.lexer.pos)
+
+func (*Parser).parseMRAtom
+  props C11
+  option safety
+  recgroup mrpattern
+  decreases 8 * (len(p.lexer.input) - p.lexer.pos)
+  requires parOK(p)
+  modifies heap(Lexer.ch), heap(Lexer.pos), heap(Lexer.readPos), heap(Lexer.line), heap(Lexer.column), p.errorRecovery.errors
+  ensures parOK(p) && errOK(result1) && p.lexer.pos >= old(p.lexer.pos)
+  ensures a-node-or-an-error: result1 == nil ==> result0 != nil
+  ensures an-atom-consumes-input: result1 == nil ==> p.lexer.pos > old(p.lexer.pos)
+
+func (*Parser).parseMRPermute
+  props C11
+  ensures success-consumes-input: result1 == nil ==> p.lexer.pos > old(p.lexer.pos)
+  option safety
+  recgroup mrpattern
+  decreases 8 * (len(p.lexer.input) - p.lexer.pos) + 4
+  requires parOK(p)
+  modifies heap(Lexer.ch), heap(Lexer.pos), heap(Lexer.readPos), heap(Lexer.line), heap(Lexer.column), p.errorRecovery.errors
+  ensures parOK(p) && errOK(result1) && p.lexer.pos >= old(p.lexer.pos)
+  ensures a-node-or-an-error: result1 == nil ==> result0 != nil
+  loop 1 invariant parOK(p) && p.lexer.pos > old(p.lexer.pos)
+  loop 1 decreases len(p.lexer.input) - p.lexer.pos
+
+func (*Parser).parseMRPatternBody
+  props C11
+  option safety
+  requires parOK(p)
+  modifies heap(Lexer.ch), heap(Lexer.pos), heap(Lexer.readPos), heap(Lexer.line), heap(Lexer.column), p.errorRecovery.errors
+  ensures parOK(p) && errOK(result1) && p.lexer.pos >= old(p.lexer.pos)
+
+func (*Parser).parseMatchRecognize
+  props C11
+  option safety
+  requires parOK(p) && stmt != nil
+  modifies stmt.MatchRecognize, heap(Lexer.ch), heap(Lexer.pos), heap(Lexer.readPos), heap(Lexer.line), heap(Lexer.column), p.errorRecovery.errors
+  ensures parOK(p) && errOK(result) && p.lexer.pos >= old(p.lexer.pos)
+  loop 1 invariant parOK(p) && p.lexer.pos >= old(p.lexer.pos) && spec != nil && fresh(spec)
+  loop 1 decreases len(p.lexer.input) - p.lexer.pos
+@*/
+
+/*@
+// ---------------------------------------------------------------- entry points (C11)
+func (*Parser).Parse
+  props C11
+  option safety
+  requires parOK(p)
+  modifies *
+  ensures parOK(p) && errOK(result1)
+  ensures a-statement-or-an-error: result1 == nil ==> result0 != nil
+
+// AST -> configuration: outside the functions under contract (regular-expression based helpers in ast.go); only
+// its frame is assumed here. Its own totality is NOT proved.
+extern (*SelectStatement).ToStreamConfig
+  props C11
+  modifies *
+
+extern groupKeyIsScalarFunctionExpr
+  props C11
+  option pure
+
+func Parse
+  props C11
+  option safety
+  modifies *
+@*/
